@@ -27,6 +27,7 @@
     args, kw); each expected pair gets exactly one; a pair that is
     not expected gets none; sessions that are not such members get
     nothing at all (frame)                                        C01_delivery_exact
+  … hence no (recipient, subscription id) pair occurs twice       C01_delivery_nodup
   … read for a coherent session table ("is not the publisher")    C01_expected_coherent
   "the original topic for pattern subscriptions": details.topic =
     p.topic iff pattern-based (needs: no `topic` among the payload
@@ -108,6 +109,13 @@ theorem C01_delivery_exact {b : Broker} (hb : BrokerInv b) (sess : SessKey → O
         through (b.syncPublish sess now p).2 k id = []) ∧
     (∀ k, (¬ ∃ s c, Expected b sess p s k c) → ∀ x ∈ (b.syncPublish sess now p).2, x.to ≠ k) :=
   delivery_exact hb sess now p
+
+/-- The same "exactly once" as a `Nodup` statement: among the EVENTs of one publication no
+    (recipient, subscription id) pair occurs twice. -/
+theorem C01_delivery_nodup {b : Broker} (hb : BrokerInv b) (sess : SessKey → Option Session) (now : Nat)
+    (p : Publication) :
+    ((b.syncPublish sess now p).2.map (fun x => (x.to, x.msg.eventSub?))).Nodup :=
+  syncPublish_pairs_nodup hb sess now p
 
 /-- non-vacuity: an expected pair in the example state (session 2 through the exact subscription),
     and a ruled-out one (the publisher, session 1, is excluded). -/
